@@ -40,3 +40,10 @@ def check(ctx):
     if c.need("R6"):
         collector.rule_danglings_arg(ctx, c, "R6")
     provrules.rule_scope_sampling(ctx, facts, "R7")
+    # "the thread's previous local context is restored after each poll" -- also when the scope just closed was one that did not record
+    scopes.rule_scope_state_restored(ctx, facts, "R8")
+    # a future that moves between threads leaves its polls' records in several queues: each is read to its end in every cycle, and a
+    # span set that arrives after one of its traces was released is kept for the stale path on every routing branch
+    if c.need("R9"):
+        collector.rule_drain_keeps_live(ctx, c, "R9")
+        collector.rule_stale_kept(ctx, c, "R9")
